@@ -427,6 +427,107 @@ pub fn run_batch(shapes: &[Shape], name: &str, slot: usize) -> Vec<Outcome> {
     out
 }
 
+/// One-step simplifications of a failing shape (fewer sets, keyframes, times, fields).
+fn shrink_candidates(sh: &Shape) -> Vec<Shape> {
+    let mut out = vec![];
+    if sh.sets.len() > 1 {
+        for i in 0..sh.sets.len() {
+            let mut n = sh.clone();
+            n.sets = vec![sh.sets[i].clone()];
+            out.push(n);
+        }
+    }
+    for (si, set) in sh.sets.iter().enumerate() {
+        for k in 0..set.kfs.len() {
+            let mut n = sh.clone();
+            n.sets[si].kfs.remove(k);
+            out.push(n);
+        }
+        if set.times.len() > 1 {
+            for k in 0..set.times.len() {
+                let mut n = sh.clone();
+                n.sets[si].times = vec![set.times[k]];
+                out.push(n);
+            }
+        }
+        if set.start.is_some() {
+            let mut n = sh.clone();
+            n.sets[si].start = None;
+            out.push(n);
+        }
+        if set.timing.repeat != Rep::None || set.timing.reverse || set.timing.delay != 0.0 {
+            let mut n = sh.clone();
+            n.sets[si].timing.repeat = Rep::None;
+            n.sets[si].timing.reverse = false;
+            n.sets[si].timing.delay = 0.0;
+            out.push(n);
+        }
+    }
+    // drop a field, when that leaves the animated set otherwise unchanged
+    let anim = sh.animated();
+    if sh.fields.len() > 1 {
+        for k in 0..sh.fields.len() {
+            let mut n = sh.clone();
+            n.fields.remove(k);
+            let expect: Vec<usize> = anim.iter().filter(|i| **i != k).map(|i| if *i > k { *i - 1 } else { *i }).collect();
+            if n.animated() != expect || expect.is_empty() {
+                continue;
+            }
+            let j = anim.iter().position(|i| *i == k);
+            for set in n.sets.iter_mut() {
+                set.from_vals.remove(k);
+                if let Some(j) = j {
+                    for kf in set.kfs.iter_mut() {
+                        kf.1.remove(j);
+                    }
+                    if let Some(st) = set.start.as_mut() {
+                        st.remove(j);
+                    }
+                }
+            }
+            out.push(n);
+        }
+    }
+    if sh.remote {
+        let mut n = sh.clone();
+        n.remote = false;
+        out.push(n);
+    }
+    out.truncate(100);
+    out
+}
+
+/// Batch shrinking (as in C16): compile all one-step simplifications together, continue with the
+/// first that still fails.
+fn shrink(sh: Shape, detail: String) -> (Shape, String) {
+    let mut cur = sh;
+    let mut cur_detail = detail;
+    for round in 0..25 {
+        let cands = shrink_candidates(&cur);
+        if cands.is_empty() {
+            break;
+        }
+        let mut next = None;
+        // run_batch reports the first failing shape of the batch
+        for o in run_batch(&cands, &format!("c17-shrink-{round}"), 0) {
+            if let Outcome::Violation { check_case, detail } = o {
+                if let Ok(s) = serde_json::from_value::<Shape>(check_case) {
+                    next = Some((s, detail));
+                    break;
+                }
+            }
+        }
+        match next {
+            Some((s, d)) => {
+                cur = s;
+                cur_detail = d;
+            }
+            None => break,
+        }
+    }
+    (cur, cur_detail)
+}
+
 pub fn c17(run: &mut Run) {
     run.assume("struct family: 1-6 fields of f32/f64/u8/i16/i32/u32, any #[animate] subset (none = all), field and struct visibility priv/pub/pub(crate), optional doc comment + attribute before the marker, local or remote proxy with the target imported as in the documentation; easings without the Back family (documented Lerp range panic)");
     if let mv_engine::Mode::Replay { case, .. } = &run.mode {
@@ -478,7 +579,16 @@ pub fn c17(run: &mut Run) {
         for o in run_batch(&shapes, &format!("c17-{b}"), 0) {
             match o {
                 Outcome::Ok => {}
-                Outcome::Violation { check_case, detail } => run.record_violation(Violation { check: "c17_shapes".into(), case: check_case, detail }),
+                Outcome::Violation { check_case, detail } => {
+                    let (case, detail) = match serde_json::from_value::<Shape>(check_case.clone()) {
+                        Ok(sh) => {
+                            let (sh, d) = shrink(sh, detail);
+                            (serde_json::to_value(&sh).unwrap(), d)
+                        }
+                        Err(_) => (check_case, detail),
+                    };
+                    run.record_violation(Violation { check: "c17_shapes".into(), case, detail })
+                }
                 Outcome::Infra(m) => run.health_fail(m),
             }
         }
